@@ -552,6 +552,30 @@ func (e *SpecEnv) call(n *SCall) Val {
 	case "key3":
 		a, b, c := e.evalInt(n.Args[0]), e.evalInt(n.Args[1]), e.evalInt(n.Args[2])
 		return scInt(app("key!3", a, b, c))
+	case "readerfault":
+		// whether the reader r fails with a non-EOF error at the end of the bytes it delivers
+		o, ok := e.eval(n.Args[0]).(Obj)
+		if !ok || o.F["id"] == nil {
+			e.fail("readerfault: reader object expected")
+		}
+		e.c().declareFun("rd!fault", []string{SInt}, SBool)
+		return scBool(app("rd!fault", o.F["id"].(Sc).T))
+	case "scanlines", "scann", "scanfault":
+		// the line sequence / line count / failure flag of a bufio.Scanner over the reader r (functions of the reader)
+		o, ok := e.eval(n.Args[0]).(Obj)
+		if !ok || o.F["id"] == nil {
+			e.fail("%s: reader object expected", n.Fn)
+		}
+		c := e.c()
+		c.scannerFields(Obj{"bufio.Scanner", map[string]Val{}}, "scn", o.F["id"].(Sc))
+		id := o.F["id"].(Sc).T
+		switch n.Fn {
+		case "scanlines":
+			return Sc{app("sc!lines", id), arrSort(SInt, SStr)}
+		case "scann":
+			return scInt(app("sc!n", id))
+		}
+		return scBool(app("sc!fault", id))
 	case "rawarr":
 		// rawarr(s): the SMT array behind a slice as it is (element j of the slice is rawarr(s)[offset(s)+j]);
 		// unlike arr() it introduces no shifted copy, so it may be used under a quantifier
